@@ -55,11 +55,35 @@ Must(cfg, a) ==
     [] OTHER -> {}          \* ret, merge, indirect, linkjump: nothing required
 
 FuncExits(cfg) == { cfg.funcs[k].exit : k \in 1..Len(cfg.funcs) }
+\* the edges the text of a statement allows (an additional return has none of its own)
+Written(cfg, a) ==
+  LET x == cfg.nodes[a] k == Kind(x.node) IN
+  CASE k = "branch" -> {Target(cfg, x.node.lab)} \cup Succ(cfg, a)
+    [] k = "linkjump" -> {Target(cfg, x.node.lab)} \cup Succ(cfg, a)
+    [] k = "ecall"  -> IF IsExitEcall(x) THEN {} ELSE Succ(cfg, a)
+    [] k \in {"entry", "fentry", "plain", "call"} -> Succ(cfg, a)
+    [] k = "jump"   -> {Target(cfg, x.node.lab)}
+    [] OTHER -> {}
+\* what a function entry reaches along written edges - read off the statements, not the analyzer's function table.
+\* Other additional returns on the way count with the return they were merged into (a function may reach its exit
+\* only through a return that another function has already merged); the merge edge being judged (skip) does not.
+WStep(cfg, a, skip) ==
+  IF Kind(cfg.nodes[a].node) = "merge" /\ a # skip
+    THEN { e \in SeqSet(cfg.nodes[a].nexts) : Kind(cfg.nodes[e].node) = "ret" }
+    ELSE Written(cfg, a) \ {0}
+RECURSIVE WClosure(_, _, _, _)
+WClosure(cfg, skip, frontier, seen) ==
+  IF frontier = {} THEN seen
+  ELSE LET new == (UNION { WStep(cfg, a, skip) : a \in frontier }) \ seen IN WClosure(cfg, skip, new, seen \cup new)
+WrittenBody(cfg, entry, skip) == WClosure(cfg, skip, {entry}, {entry})
+FuncEntries(cfg) == { i \in 1..Len(cfg.nodes) : Kind(cfg.nodes[i].node) = "fentry" }
 May(cfg, a) ==
   LET x == cfg.nodes[a] k == Kind(x.node) IN
   CASE k = "branch" -> {Target(cfg, x.node.lab)} \cup Succ(cfg, a)
-    [] k = "merge"  -> { e \in FuncExits(cfg) : \E f \in 1..Len(cfg.funcs) :
-                           cfg.funcs[f].exit = e /\ a \in SeqSet(cfg.funcs[f].nodes) }
+    \* the merge of an additional return into the exit of a function: both are returns that the function's entry
+    \* reaches along written edges
+    [] k = "merge"  -> { e \in FuncExits(cfg) : \E en \in FuncEntries(cfg) :
+                           LET b == WrittenBody(cfg, en, a) IN a \in b /\ e \in b /\ Kind(cfg.nodes[e].node) = "ret" }
     [] k = "linkjump" -> {Target(cfg, x.node.lab)} \cup Succ(cfg, a)
     [] k = "ecall"  -> IF IsExitEcall(x) THEN {} ELSE Succ(cfg, a)       \* edges stop at exit ecalls
     [] OTHER -> Must(cfg, a)
